@@ -1280,27 +1280,6 @@ theorem rect_write_eq {f : Rat → String} (o : POpts) {p0 p1 p2 p3 p4 : Pos}
     rw [a1, b1, a3, b3, a4, b4, a0, b0, a2, b2, ← e5, e2, ← e1, ← e3, x3]
   rw [this]
 
-theorem polyCase_shape {o : POpts} {k : Keys} {x : Obj} (h : polyCase o k = .ok x) :
-    ∃ c rings ex, k.coordinates = some c ∧ parsePolyCoords c = .ok (rings, ex) ∧
-      rings.all ringOK = true ∧ x = polyObj o rings (withMembers ex k) := by
-  unfold polyCase at h
-  split at h
-  · cases h
-  · rename_i c hc
-    split at h
-    · cases h
-    · rename_i rings ex hp
-      split at h
-      · cases h
-      · rename_i hok
-        simp only at h
-        split at h
-        · cases h
-        · cases h
-          refine ⟨c, rings, ex, (reqArray_ok hc).1, hp, ?_, rfl⟩
-          simp only [Bool.or_eq_true, Bool.not_eq_true', not_or, Bool.not_eq_true, Bool.not_eq_false] at hok
-          exact hok.2
-
 theorem polyCase_rects_WEq {f : Rat → String} (o : POpts) (k : Keys) (hk : k.AllIn (CanonBy f)) {x x' : Obj}
     (hx : polyCase { o with allowRects := true } k = .ok x)
     (hx' : polyCase { o with allowRects := false } k = .ok x') : WEq x x' := by
